@@ -261,7 +261,7 @@ def run(ctx):
         ctx.stats.merge(r)
     cl = ctx.stats.classes
     tot = max(1, cl["projection"])
-    ctx.floor("roots given (share)", round(cl["roots-given"] / tot, 3), 0.25)
+    ctx.floor("roots given (share)", round(cl["roots-given"] / tot, 3), 0.15)
     ctx.floor("allow_empty_group (share)", round(cl["allow-empty"] / tot, 3), 0.3)
     ctx.floor("native encoding (share)", round(cl["proj:native"] / tot, 3), 0.3)
     for f in FORMS:
